@@ -585,13 +585,25 @@ Definition sizes (f : frame) : list N := map snd (frame_layers f).
 Definition layers_ok (m : msg) (f : frame) : Prop :=
   exists k, mgetLI m cLayerStack = firstn k (codes f) /\ length (mgetLI m cLayerSize) = length (mgetLI m cLayerStack) /\
             firstn (k - 1) (mgetLI m cLayerSize) = firstn (k - 1) (sizes f).
+Fixpoint vlan_ets (vs : list N) (final : N) : list N :=
+  match vs with [] => [] | v :: r => head_et r final :: vlan_ets r final end.
+Definition etypes (f : frame) : list N :=
+  head_et (fVlans f) (after_et f) :: vlan_ets (fVlans f) (after_et f) ++
+  match fMpls f with [] => [] | _ => [l3_etype (fOuter f)] end.
+Definition tag_val (f : frame) (k : N) (v : pval) : Prop :=
+  (k = cVlanId /\ exists t, In t (fVlans f) /\ v = VI t) \/ (k = cEtype /\ exists e, In e (etypes f) /\ v = VI e).
+Definition tags_ok (m0 m : msg) (f : frame) : Prop :=
+  forall k, k = cEtype \/ k = cVlanId ->
+    alookup (cols m) k = alookup (cols m0) k \/ exists v, alookup (cols m) k = Some v /\ tag_val f k v.
+
 (* every column written by a header that lies COMPLETELY inside the first n bytes has the complete frame's value *)
 Definition complete_ok (m0 m : msg) (f : frame) (n : nat) : Prop :=
   forall j k, (j <= length (frame_chain f))%nat -> (length (hdrs f j) <= n)%nat ->
     In k (fkeys (applied false (firstn j (frame_chain f)))) ->
     alookup (cols m) k = alookup (cols (framed m0 f)) k.
 Definition cut_ok (m0 : msg) (f : frame) (data : bytes) : Prop :=
-  exists m, parse_packet empty_pcfg m0 data = Ok m /\ cols_ok m0 m f /\ layers_ok m f /\ complete_ok m0 m f (length data).
+  exists m, parse_packet empty_pcfg m0 data = Ok m /\ cols_ok m0 m f /\ layers_ok m f /\ complete_ok m0 m f (length data) /\
+            tags_ok m0 m f.
 
 Definition lsig (l : layer) : parser * N := (lp l, lenN (lhdr l)).
 Lemma run_layers_ls q : forall e b ls e' b' ls',
@@ -695,6 +707,121 @@ Proof.
   2:{ symmetry. rewrite skipn_app. rewrite skipn_all2 by (rewrite firstn_length; lia).
       rewrite firstn_length. replace (j - Nat.min j (length (frame_chain f)))%nat with 0%nat by lia. reflexivity. }
   cbn [map concat]. rewrite <- app_assoc. apply peek_cut; assumption.
+Qed.
+
+(* ---- the two columns that are written by several headers: the ethertype and the VLAN id ----
+   Whatever a capture reports there is a TRUE ethertype field / VLAN tag of the frame (one of a header in front of the
+   IP header), or what the base message had. *)
+Lemma vlan_tag_vals vs final k v : In (k, v) (flat_map lasg (vlan_chain vs final)) ->
+  (k = cVlanId /\ exists t, In t vs /\ v = VI t) \/ (k = cEtype /\ exists e, In e (vlan_ets vs final) /\ v = VI e).
+Proof.
+  induction vs as [|t r IH]; intros H; [destruct H|]. cbn [vlan_chain flat_map vlan_layer mk lasg app In] in H.
+  destruct H as [H|[H|H]].
+  - inversion H; subst. left. split; [reflexivity|]. exists t. split; [left; reflexivity|reflexivity].
+  - inversion H; subst. right. split; [reflexivity|]. exists (head_et r final). split; [left; reflexivity|reflexivity].
+  - destruct (IH H) as [(E & t0 & Ht & Ev)|(E & e & He & Ev)].
+    + left. split; [exact E|]. exists t0. split; [right; exact Ht|exact Ev].
+    + right. split; [exact E|]. exists e. split; [right; exact He|exact Ev].
+Qed.
+
+Lemma front_tag_vals f k v : In (k, v) (flat_map lasg (front_chain f)) -> okk k = false -> tag_val f k v.
+Proof.
+  unfold front_chain. cbn [flat_map eth_layer mk lasg app In]. intros H Hok.
+  destruct H as [H|[H|[H|H]]]; try (inversion H; subst; discriminate Hok).
+  - inversion H; subst. right. split; [reflexivity|]. exists (head_et (fVlans f) (after_et f)). split; [unfold etypes; left; reflexivity|reflexivity].
+  - rewrite flat_map_app in H. apply in_app_or in H. destruct H as [H|H].
+    + destruct (vlan_tag_vals _ _ _ _ H) as [(E & t & Ht & Ev)|(E & e & He & Ev)].
+      * left. split; [exact E|]. exists t. split; assumption.
+      * right. split; [exact E|]. exists e. split; [unfold etypes; right; apply in_or_app; left; exact He|exact Ev].
+    + unfold mpls_chain in H. destruct (fMpls f) as [|x ls] eqn:Em; [destruct H|].
+      cbn [flat_map mpls_layer mk lasg app In] in H. destruct H as [H|[H|[H|[]]]]; try (inversion H; subst; discriminate Hok).
+      inversion H; subst. right. split; [reflexivity|]. exists (l3_etype (fOuter f)). split; [|reflexivity].
+      unfold etypes. rewrite Em. right. apply in_or_app. right. left. reflexivity.
+Qed.
+
+Lemma l3_all_okk x next plen : Forall (fun kv => okk (fst kv) = true) (flat_map lasg (l3_chain x next plen)).
+Proof.
+  destruct x as [h|h]; cbn [l3_chain flat_map ip4_layer ip6_layer mk lasg app].
+  - unfold ip4_assign. repeat constructor.
+  - unfold ip6_assign, v6_ext_chain. destruct (i6Srh h) as [s|]; destruct (i6Frag h) as [[[o fl] id]|];
+      cbn [flat_map srh_layer frag_layer frag_assign mk lasg app]; repeat constructor.
+Qed.
+Lemma l4_all_okk x : Forall (fun kv => okk (fst kv) = true) (flat_map lasg (l4_chain x)).
+Proof. destruct x; cbn [l4_chain flat_map mk lasg l4_assign app]; repeat constructor. Qed.
+
+Lemma tail_applied_okk f e0 : Forall (fun kv => okk (fst kv) = true) (applied e0 (tail_chain f)).
+Proof.
+  assert (Hin : Forall (fun kv => okk (fst kv) = true) (flat_map lasg (inner_chain f))).
+  { unfold inner_chain. rewrite flat_map_app. apply Forall_app. split; [apply l3_all_okk|apply l4_all_okk]. }
+  assert (G : forall q e, Forall (fun kv => okk (fst kv) = true) (flat_map lasg q) -> Forall (fun kv => okk (fst kv) = true) (applied e q)).
+  { intros q e H. rewrite Forall_forall in *. intros kv Hkv. apply H. eapply applied_incl. exact Hkv. }
+  unfold tail_chain. destruct (fTun f).
+  - apply G, l4_all_okk.
+  - apply G. cbn [flat_map gre_layer mk lasg app]. exact Hin.
+  - cbn [applied gre_layer eth_layer mk lasg lp lnext].
+    replace (encap_next e0 PGRE (next_etype 25944)) with true by (destruct e0; reflexivity).
+    cbn [encap_next orb]. rewrite applied_true. destruct e0; apply Forall_nil.
+  - apply G. exact Hin.
+Qed.
+
+Lemma applied_nonokk f k v : In (k, v) (applied false (frame_chain f)) -> okk k = false ->
+  In (k, v) (flat_map lasg (front_chain f)).
+Proof.
+  unfold frame_chain. rewrite !applied_app. intros H Hok. apply in_app_or in H. destruct H as [H|H].
+  - eapply applied_incl. exact H.
+  - exfalso. apply in_app_or in H. destruct H as [H|H].
+    + apply applied_incl in H. pose proof (l3_all_okk (fOuter f) (outer_next f) (lenN (tail_bytes f))) as A.
+      rewrite Forall_forall in A. specialize (A _ H). cbn [fst] in A. congruence.
+    + pose proof (tail_applied_okk f (eafter (eafter false (front_chain f)) (l3_chain (fOuter f) (outer_next f) (lenN (tail_bytes f))))) as A.
+      rewrite Forall_forall in A. specialize (A _ H). cbn [fst] in A. congruence.
+Qed.
+
+Lemma applied_prefix_in (q : list layer) j kv : In kv (applied false (firstn j q)) -> In kv (applied false q).
+Proof. intros H. rewrite <- (firstn_skipn j q). rewrite applied_app. apply in_or_app. left. exact H. Qed.
+
+Lemma assign_lookup_cases L : forall m k,
+  alookup (cols (assign L m)) k = alookup (cols m) k \/ exists v, In (k, v) L /\ alookup (cols (assign L m)) k = Some v.
+Proof.
+  induction L as [|[k1 v1] r IH]; intros m k; [left; reflexivity|]. cbn [assign fold_left fst snd].
+  change (fold_left (fun m0 kv => mset m0 (fst kv) (snd kv)) r (mset m k1 v1)) with (assign r (mset m k1 v1)).
+  destruct (IH (mset m k1 v1) k) as [H|(v & Hin & H)].
+  - rewrite H, alookup_mset. destruct (N.eqb_spec k1 k) as [->|Hne]; [|left; reflexivity].
+    right. exists v1. split; [left; reflexivity|reflexivity].
+  - right. exists v. split; [right; exact Hin|exact H].
+Qed.
+
+Lemma tags_core m0 f j k : okk k = false ->
+  let b := assign (applied false (firstn j (frame_chain f))) m0 in
+  alookup (cols b) k = alookup (cols m0) k \/ exists v, alookup (cols b) k = Some v /\ tag_val f k v.
+Proof.
+  intros Hok b. unfold b.
+  destruct (assign_lookup_cases (applied false (firstn j (frame_chain f))) m0 k) as [H|(v & Hin & H)]; [left; exact H|].
+  right. exists v. split; [exact H|]. apply front_tag_vals; [|exact Hok].
+  apply applied_nonokk; [|exact Hok]. eapply applied_prefix_in. exact Hin.
+Qed.
+
+Lemma stop_tags m0 f j e b ls m :
+  run_layers false m0 [] (firstn j (frame_chain f)) = Some (e, b, ls) -> others_eq m b -> tags_ok m0 m f.
+Proof.
+  intros Hrun [Ho _] k Hk.
+  assert (Hok : okk k = false) by (destruct Hk as [-> | ->]; reflexivity).
+  rewrite Ho by (destruct Hk as [-> | ->]; discriminate).
+  apply run_layers_applied in Hrun. destruct Hrun as [Hb _]. rewrite Hb. apply tags_core. exact Hok.
+Qed.
+
+Lemma step_tags m0 f j A L e b ls m :
+  run_layers false m0 [] (firstn j (frame_chain f)) = Some (e, b, ls) -> sub_asg A L ->
+  others_eq m (if e then b else assign A b) -> tags_ok m0 m f.
+Proof.
+  intros Hrun [_ HA] [Ho _] k Hk.
+  assert (Hok : okk k = false) by (destruct Hk as [-> | ->]; reflexivity).
+  assert (Hnot : ~ In k (map fst A)).
+  { intros Hi. apply in_map_iff in Hi. destruct Hi as ([k0 v] & E & Hin). cbn [fst] in E. subst k0.
+    destruct (HA k v Hin) as [H _]. congruence. }
+  rewrite Ho by (destruct Hk as [-> | ->]; discriminate).
+  replace (alookup (cols (if e then b else assign A b)) k) with (alookup (cols b) k)
+    by (destruct e; [reflexivity|symmetry; apply assign_notin; exact Hnot]).
+  apply run_layers_applied in Hrun. destruct Hrun as [Hb _]. rewrite Hb. apply tags_core. exact Hok.
 Qed.
 
 (* ---- headers completely inside the capture ---- *)
@@ -848,6 +975,7 @@ Proof.
   destruct (cut_stop m0 (firstn j (frame_chain f)) (firstn c (lhdr (lay f j))) e b ls Hbase (chained_firstn _ j _ Hch) Hct Hrun) as (m & Hp & Hinv).
   - right. rewrite (last_next_firstn _ j _ Hch Hj). fold (lay f j). rewrite firstn_length. lia.
   - exists m. split; [exact Hp|]. split; [eapply stop_columns; eassumption|]. split; [eapply stop_layers; eassumption|].
+    split; [|destruct Hinv as (_ & _ & Ho); eapply stop_tags; eassumption].
     intros j2 k Hj2 Hlen Hin. destruct Hinv as (_ & _ & Ho).
     apply (stop_complete m0 f j e b ls m Hwf Hbase Hrun Ho j2 k); [|exact Hin].
     apply (hdrs_bound f j j2 (length (hdrs f j ++ firstn c (lhdr (lay f j)))) Hwf Hj Hj2 Hlen).
@@ -868,6 +996,7 @@ Proof.
   - rewrite (last_next_firstn_S _ j _ Hch Hj). fold (lay f j).
     destruct Hx as [->|Hx]; [|left; exact Hx]. destruct Hn as [Hn|Hn]; [left; exact Hn|right; cbn [length]; exact Hn].
   - exists m. split; [exact Hp|]. split; [eapply stop_columns; eassumption|]. split; [eapply stop_layers; eassumption|].
+    split; [|destruct Hinv as (_ & _ & Ho); eapply stop_tags; eassumption].
     intros j2 k Hj2 Hlen Hin. destruct Hinv as (_ & _ & Ho).
     destruct (Nat.le_gt_cases j2 (S j)) as [Hle|Hgt]; [apply (stop_complete m0 f (S j) e b ls m Hwf Hbase Hrun Ho j2 k Hle Hin)|].
     (* a header behind header j: only when header j is the last one and x is what follows the headers *)
@@ -902,7 +1031,8 @@ Proof.
   - rewrite Hp. exact Hstep.
   - intros H1 H2. eapply frame_needs; eauto.
   - exact Hend.
-  - exists m. split; [exact Hpp|]. split; [|split].
+  - exists m. split; [exact Hpp|]. split; [|split; [|split]].
+    4:{ destruct Hinv as (_ & _ & Ho). eapply step_tags; eassumption. }
     + destruct Hinv as (_ & _ & Ho). eapply step_columns; eauto.
     + rewrite Hp in Hinv. eapply step_layers; eauto.
     + intros j2 k Hj2 Hlen Hin. destruct Hinv as (_ & _ & Ho).
@@ -1135,6 +1265,7 @@ Proof.
     destruct (cut_stop m0 [] [] false m0 [] Hbase I I eq_refl) as (m & Hp & Hinv); [right; cbn; lia|].
     exists m. split; [exact Hp|]. split; [apply (stop_columns m0 f 0 false m0 [] m Hwf Hbase eq_refl Hinv)|].
     split; [apply (stop_layers m0 f 0 false m0 [] m Hwf eq_refl Hinv)|].
+    split; [|destruct Hinv as (_ & _ & Ho); apply (stop_tags m0 f 0 false m0 [] m eq_refl Ho)].
     intros j2 k Hj2 Hlen Hin. cbn [length] in Hlen.
     destruct j2 as [|j2]; [destruct Hin|]. exfalso. pose proof (hdrs_lt f 0 (S j2) Hwf ltac:(lia)). lia. }
   destruct (Nat.le_gt_cases n (length H)) as [Hle|Hgt].
@@ -1179,10 +1310,12 @@ Theorem any_cut f n : wf_frame f = true ->
        col_ok None (alookup (cols m) k) (alookup (cols (ref_frame f)) k)) /\ layers_ok m f /\
     (forall j k, (j <= length (frame_chain f))%nat -> (length (hdrs f j) <= length (firstn n (encode_frame f)))%nat ->
        In k (fkeys (applied false (firstn j (frame_chain f)))) ->
-       alookup (cols m) k = alookup (cols (ref_frame f)) k).
+       alookup (cols m) k = alookup (cols (ref_frame f)) k) /\
+    (forall k, k = cEtype \/ k = cVlanId ->
+       alookup (cols m) k = None \/ exists v, alookup (cols m) k = Some v /\ tag_val f k v).
 Proof.
-  intros Hwf. destruct (any_cut_on empty_msg f n Hwf base_empty) as (m & Hp & Hc & Hl & Hk).
-  exists m. split; [exact Hp|]. split; [|split; [exact Hl|]].
+  intros Hwf. destruct (any_cut_on empty_msg f n Hwf base_empty) as (m & Hp & Hc & Hl & Hk & Ht).
+  exists m. split; [exact Hp|]. split; [|split; [exact Hl|split; [|exact Ht]]].
   - intros k K1 K2 K3 K4. specialize (Hc k K1 K2 K3 K4). rewrite framed_empty in Hc. exact Hc.
   - intros j k Hj Hlen Hin. rewrite <- framed_empty. apply (Hk j k Hj Hlen Hin).
 Qed.
